@@ -64,6 +64,8 @@ E13 a device's master file may be None: whoever reads `<device>.device_file`
 E14 line and jump numbers are packed as uint16 by the tokeniser: the reader
     that produces them has a bounded digit loop and a cut-off K with
     min(10^N - 1, 10K + 9) <= 65535 (seeded C01e).
+E15 the value POKE and OUT hand on is range-checked to 0..255 first: the memory
+    writers store it with byte formats that raise for 256 (seeded C01h).
 Not decided: exceptions raised implicitly by arbitrary Python operations
 outside these patterns -- no sound static argument in reach bounds those.
 """
@@ -855,6 +857,25 @@ RUNS_BASIC = ('self._store_line', 'self.interpreter.loop', 'self.parser.parse_ex
               'self._auto_step', 'self._show_prompt', 'self.console.read_line')
 
 
+def check_e15(ctx, rep):
+    """E15: a value that POKE or OUT hands on is a byte.  The memory writers behind _set_memory store it with
+    struct 'B' formats, bytearray items and int2byte, each of which raises a host exception for 256."""
+    M = 'pcbasic/basic/machine.py'
+    n = 0
+    for name, var in (('Memory.poke_', 'val'), ('MachinePorts.out_', 'val')):
+        fn = ctx.fn('%s:%s' % (M, name))
+        rc = [c for c in own_nodes(fn) if isinstance(c, ast.Call) and norm(c.func) == 'error.range_check' and len(c.args) >= 3 and var in [norm(a) for a in c.args[2:]]]
+        use = [c for c in own_nodes(fn) if isinstance(c, ast.Call) and c not in rc and not norm(c.func).startswith(('values.', 'error.'))
+               and var in [norm(a) for a in c.args]]
+        n += len(rc)
+        lo = [ctx.fold(c.args[0]) for c in rc]
+        hi = [ctx.fold(c.args[1]) for c in rc]
+        ok = len(rc) == 1 and isinstance(lo[0], int) and isinstance(hi[0], int) and lo[0] >= 0 and hi[0] <= 255 and all(rc[0].lineno < u.lineno for u in use)
+        rep.ob('E15.poked-value-is-a-byte', '%s: `%s` is range-checked to 0..255 before it is handed on' % (name, var), ok,
+               'bounds %s..%s: 256 reaches struct.pack(\'B\') / a bytearray item and ends in struct.error or ValueError' % (lo, hi), ctx.where(rc[0] if rc else fn))
+    rep.floor('E15.poked-value-is-a-byte', n, 2, 'byte range checks in POKE and OUT')
+
+
 def check_e10(ctx, rep):
     """The three entry points that run BASIC code do all of it inside `with self._handle_exceptions()`."""
     n = 0
@@ -883,6 +904,7 @@ def check(ctx, rep):
     _sh.share(ctx, rep, _c23, ('commons.function-pointers-are-not-strings',), 'CHAIN ...,ALL reads as string pointers only scalars that are strings: the code address kept for DEF FNA$ would be dereferenced into ValueError')
     check_e9(ctx, rep)
     check_e10(ctx, rep)
+    check_e15(ctx, rep)
     check_e11(ctx, rep)
     check_e12(ctx, rep)
     check_e13(ctx, rep)
@@ -905,6 +927,8 @@ def variants(ctx):
         return lambda tree: f(mu.find_def(tree, f_name))
 
     return [
+        Va('poke-accepts-256', 'break', 'pcbasic/basic/machine.py',
+           in_fn('Memory.poke_', lambda fn: mu.replace_expr(fn, mu.text_is('error.range_check(0, 255, val)'), 'error.range_check(0, 256, val)')), expect='E15'),
         Va('chain-all-dereferences-function-pointer', 'break', 'pcbasic/basic/memory/memory.py',
            in_fn('DataSegment.preserve_commons', lambda fn: mu.replace_expr(fn, mu.text_is("name[-1:] == values.STR and name[:1] < b'\\x80'"), 'name[-1:] == values.STR')),
            expect='shared.commons.function-pointers'),
